@@ -138,6 +138,16 @@ def job(j):
                     mm.append("valid variables refused / errors: %r" % (resp,))
                 elif len(w.calls) != 1 or not render.strict_eq(w.calls[0][2], exp):
                     mm.append("resolver saw %r, expected %r" % (w.calls, exp))
+            # a refused variable value refuses a SUBSCRIPTION the same way: one errors-only response, the source stream is not started,
+            # nothing is raised into the consumer
+            if k == 0 and rec["refused"] and rec["present"]:
+                st["n"] += 1
+                qs = "subscription (%s) { u%d(a: $a) }" % (vdef, rec["ti"])
+                resps = w.run_sub(qs, variables)
+                mms = refused_ok(resps, w)
+                if mms:
+                    genrun.add_viol(st["viol"], ({"kind": "var-cell", "type": ty, "refused_expected": True, "first": "subscription: " + mms[0][:90]},
+                                       {"cell": rec, "query": qs, "variables": repr(variables), "mismatches": mms, "response": repr(resps)[:1500]}))
             # an explicit null reaches an argument that has a schema default of its own as null, not as that default
             if k == 0 and rec["present"] and rec["v"]["t"] == "N" and not rec["refused"] and not rec["hasDefault"]:
                 st["n"] += 1
